@@ -53,7 +53,7 @@ Theorem C10_poll_output : forall fuel r w p r' w',
     match p with
     | PReady (inl _) => n = len out /\ output_buffer (rsp r') = [] /\ rlock r' = false
     | PReady (inr k) => (k = 99 /\ (fuel <= length (wscript w) + 1)%nat) \/
-                        (n < len out /\ rlock r' = true /\ (k = EK_WriteZero \/ k = EK_Transport) /\ ~ no_fault (wscript w))
+                        (n < len out /\ rlock r' = true /\ (k = EK_WriteZero \/ k = EK_Transport \/ k = EK_Aborted) /\ ~ no_fault (wscript w))
     | PWake => n < len out /\ rlock r' = true
     | PBlock => False
     end.
